@@ -229,6 +229,30 @@ class World:
                 d = {part: d}
             job.sp[path[0]] = d
 
+    def _setdefault(self, job, k, v):
+        path = self.uni.kmap[k]
+        val = copy.deepcopy(self.uni.vmap[v])
+        if len(path) == 1:
+            job.sp.setdefault(path[0], val)
+        else:       # nested key: the spec's key is absent iff the whole sub-mapping is absent
+            d = val
+            for part in reversed(path[1:]):
+                d = {part: d}
+            job.sp.setdefault(path[0], d)
+
+    def _update(self, job, upd):
+        """job.sp.update({...}) with the top-level spelling of every mentioned key"""
+        arg = {}
+        for k in self.uni.keys:
+            if upd[k] == ABSENT:
+                continue
+            path = self.uni.kmap[k]
+            d = copy.deepcopy(self.uni.vmap[upd[k]])
+            for part in reversed(path[1:]):
+                d = {part: d}
+            arg[path[0]] = d
+        job.sp.update(arg)
+
     def do(self, last):
         """-> (result class name | 'ok' | 'written' | 'none', val set)"""
         op, a = last["op"], last["args"]
@@ -252,6 +276,14 @@ class World:
                 self.h[a[0]].remove()
             elif op == "setkey":
                 self._setkey(self.h[a[0]], a[1], a[2])
+            elif op == "sp_pop":
+                self.h[a[0]].sp.pop(uni.kmap[a[1]][0])
+            elif op == "sp_setdefault":
+                self._setdefault(self.h[a[0]], a[1], a[2])
+            elif op == "sp_update":
+                self._update(self.h[a[0]], a[1])
+            elif op == "sp_clear":
+                self.h[a[0]].sp.clear()
             elif op == "assign":
                 self.h[a[0]].statepoint = uni.real(a[1])
             elif op == "update_sp":
